@@ -7,6 +7,9 @@
 (*   <<2, c, v>>          the peer sends exit status v                               *)
 (*   <<3, c, s>>          the transport thread dispatches the head message (s: 2 exit status, 3 EOF, 4 CLOSE) *)
 (*   <<6, c>> / <<7, c>>  the peer sends EOF / CLOSE                                  *)
+(*   <<9, c>>             second statement of the exit-status handler (the replay runs  *)
+(*                        the whole handler at <<3, c, 2>>)                              *)
+(*   <<8, c>>             recv_exit_status() returns on channel c                       *)
 (*   <<4, c>>             set_combine_stderr(True) on channel c                      *)
 (*   <<5, c, ep, k, runs>> recv (ep 0) / recv_stderr (ep 1) asking for k bytes returns*)
 (*                        runs = <<<<s, pos, n>>, ...>>                             *)
@@ -26,13 +29,15 @@ GNext ==
   \/ \E c \in Chans, v \in Statuses : PeerExit(c, v) /\ hist' = Append(hist, <<2, c, v>>)
   \/ \E c \in Chans : PeerEof(c) /\ hist' = Append(hist, <<6, c>>)
   \/ \E c \in Chans : PeerClose(c) /\ hist' = Append(hist, <<7, c>>)
-  \/ (FeedOut \/ FeedExtAtomic \/ ExitStatus \/ EofOrClose) /\ hist' = Append(hist, <<3, Head(wire).c, SC(Head(wire).s)>>)
+  \/ (FeedOut \/ FeedExtAtomic \/ ExitStatus1 \/ EofOrClose) /\ hist' = Append(hist, <<3, Head(wire).c, SC(Head(wire).s)>>)
+  \/ ExitStatus2 /\ hist' = Append(hist, <<9, tpc[1].m.c>>)
+  \/ \E c \in Chans : RecvExitStatus(c) /\ hist' = Append(hist, <<8, c>>)
   \/ \E c \in Chans : (LateSwitch => shut[c]) /\ CombineAtomic(c) /\ hist' = Append(hist, <<4, c>>)
   \/ \E c \in Chans, ep \in Eps, k \in ReadSizes :
         (LateSwitch /\ ep = "err" => swpc[c] = "on") /\
         Recv(c, ep, k) /\ hist' = Append(hist, <<5, c, SC(ep), k, RunTuples(TakeBytes(buf[c][ep], k))>>)
 GSpec == GInit /\ [][GNext]_<<vars, hist>>
-Complete == \A c \in Chans : /\ statusSent[c] # None /\ status[c] # None /\ Drained(c)
+Complete == \A c \in Chans : /\ statusSent[c] # None /\ status[c] # None /\ reported[c] # Unread /\ Drained(c)
                               /\ pstate[c] # "open" /\ shut[c]
                               /\ (LateSwitch => swpc[c] = "on")
 Emit == Complete => PrintT(<<"BEH", hist>>)
